@@ -2,7 +2,7 @@
 CHECK = {
     "pkg": "cert", "files": ["cert/certgen_test.go", "cert/c03_test.go"], "run": "^TestC03",
     "quick": {"scale": 1, "shards": 1, "timeout": 600},
-    "thorough": {"scale": 12, "shards": 8, "timeout": 1800, "fuzz": [{"target": "FuzzC03Decode", "seconds": 90}]},
+    "thorough": {"scale": 5, "shards": 8, "timeout": 1800, "fuzz": [{"target": "FuzzC03Decode", "seconds": 90}]},
     "rule": "requests over the whole input space of Sign/SignWith: names of 0, 1, 253, 254, 255, 300 and arbitrary byte length "
             "(raw bytes incl. invalid UTF-8, ASCII, multi-byte runes), 0-6 groups incl. empty strings, duplicates and 200-byte "
             "groups, 0-40 networks and unsafe networks (both families, host bits set, /0../32,/128, zero address, 4in6, "
